@@ -12,6 +12,7 @@ import (
 
 func main() {
 	checks.InitRunDir()
+	defer checks.CleanupRunDir() // the debug subcommands below return from main
 	if len(os.Args) > 1 && os.Args[1] == "smoke" {
 		seed := uint64(1)
 		if len(os.Args) > 2 {
@@ -66,7 +67,12 @@ func main() {
 		fmt.Println("hash", r.Hash, "fired", r.Sim.Fired)
 		return
 	}
-	os.Exit(checks.Main(os.Args[1:]))
+	if len(os.Args) > 1 && os.Args[1] == "run" {
+		checks.SweepStaleRunDirs()
+	}
+	code := checks.Main(os.Args[1:])
+	checks.CleanupRunDir()
+	os.Exit(code)
 }
 
 func outcomes(r *checks.Result) []string {
